@@ -145,6 +145,10 @@ COMPOSITIONS = [
     ('cors_enable', None, None, True, 'flag'),
     ('cors_enable+noop', 'noop', None, True, 'flag'),       # App(cors_enable=True, middleware=[noop])
     ('cors_enable+single', 'noop', None, True, 'flag1'),    # middleware given as a bare object
+    # the built-in component is APPENDED (below the user's, whichever call form): in dependent mode a user component
+    # that refuses the request keeps it from running at all
+    ('dep:cors_enable+single-raises', 'raise_req', None, False, 'flag1'),
+    ('dep:cors_enable+list-raises', 'raise_req', None, False, 'flag'),
     ('between-noops', 'noop', 'noop', True, 'mw'),
     ('outer-completes', 'complete', None, True, 'mw'),
     ('outer-completes-allow', 'complete_allow', None, True, 'mw'),
@@ -399,9 +403,9 @@ def build_app(comp, stack, cfg, nm, static_dir):
         if o is None:
             app = App(cors_enable=on)
         elif how == 'flag1':
-            app = App(cors_enable=on, middleware=o)
+            app = App(cors_enable=on, middleware=o, independent_middleware=independent)
         else:
-            app = App(cors_enable=on, middleware=[o])
+            app = App(cors_enable=on, middleware=[o], independent_middleware=independent)
     for p, r in build_resources(nm, is_async).items():
         app.add_route(p, r)
     app.add_sink(build_sink(is_async, True), '/sinkallow')
